@@ -274,6 +274,13 @@ def flattenList : List Stan → Except Err (List Char)
     | .error e => .error e
 end
 
+/-- `templatewriter.writer.flattenToFile`: the DOCTYPE constant, then exactly what the flattener
+produced — nothing is done to the serialised page (no normalisation, re-encoding, minification) -/
+def flattenToFile (doctype : List Char) (t : Stan) : Except Err (List Char) :=
+  match flattenStr t with
+  | .ok s => .ok (doctype ++ s)
+  | .error e => .error e
+
 /-- what the flattener writes, as a token stream; strings are the escaped forms as written -/
 inductive Tok where
   | open (name : List Char)            -- `<name`
